@@ -60,8 +60,35 @@ Fixpoint lang_stable (prev : option osnap) (steps : list (bytes * eobs)) : bool 
     | None => true
     end
   end.
+(* c18_steps for this mode: the language a request starts in is the kept state's - or, while that
+   has none, the configured one, which every new engine applies again (ensureState) *)
+Definition start_lang (c : config) (p : osnap) : option bytes :=
+  match os_lang p with
+  | Some l => Some l
+  | None => match c_lang c with [] => None | code => lang_lookup code end
+  end.
+Fixpoint c18_steps_kept (c : config) (prev : option osnap) (steps : list (bytes * eobs)) : N :=
+  match steps with
+  | [] => 0
+  | (i, o) :: r =>
+    match eo_snap o with
+    | Some os =>
+      let code_ok := match os_lang os with Some l => len l =? 3 | None => true end in
+      let lookups_ok := code_ok && forallb (fun cl => match cl with
+                                          | OcTpl _ l | OcMenu _ l => obytes_eqb l (os_lang os)
+                                          | _ => true end) (eo_calls o) in
+      let first_ok := match prev, first_func_lang (eo_calls o) with
+                      | Some p, Some l => obytes_eqb l (start_lang c p) || obytes_eqb l (os_lang os)
+                      | _, _ => true end in
+      let lost := match prev with
+                  | Some p => match os_lang p, os_lang os with Some _, None => true | _, _ => false end
+                  | None => false end in
+      if negb (lookups_ok && first_ok) then 2 else if lost then 1 else c18_steps_kept c (eo_snap o) r
+    | None => 0
+    end
+  end.
 Definition c18_kept_class (ec : ecase) : option N :=
-  let b := c18_steps None (ec_pers ec) in
+  let b := c18_steps_kept (ec_cfg ec) None (ec_pers ec) in
   if (b =? 2) || negb (lang_stable None (ec_pers ec)) then Some 0
   else if b =? 1 then (if has_empty_lang (ec_app ec) (ec_cfg ec) then Some 1 else Some 0)
   else None.
